@@ -273,7 +273,7 @@ func r18Ops(c *core.Ctx, sh *txnShape) {
 				if !ssax.IsErrorType(x.Type()) {
 					continue
 				}
-				if src := callProducing(x); src != nil && reachesCtxErr(p, ssax.StaticCallee(src), 3) {
+				if src := callProducing(x); src != nil && reachesCtxErr(p, ssax.StaticCallee(src), 3) && abortCheckSound(ssax.StaticCallee(src)) {
 					okDom = true
 				}
 			}
@@ -902,4 +902,60 @@ func r18WhoAborts(c *core.Ctx, sh *txnShape) {
 			c.Bad("R18.9", key, p.Pos(first.Pos()), fmt.Sprintf("%s cancels the transaction itself: only Abort and Commit may end it — after this call every later operation is skipped and Commit returns 'context canceled' without the per-call results, so the store's actual error and all other results are lost", fname(fn)))
 		}
 	}
+}
+
+// abortCheckSound: the abort checker answers "not aborted" (nil error) only behind its look at the context: every
+// return of a nil error is dominated by the instruction that consults the context (ctx.Err(), a select on
+// ctx.Done()). A mode-dependent early 'return op, nil' ahead of it lets that kind of operation run on an aborted
+// transaction, which has already released the store's lock.
+func abortCheckSound(fn *ssa.Function) bool {
+	if fn == nil || fn.Blocks == nil {
+		return false
+	}
+	eidx := ssax.ErrorResultIndex(fn.Signature)
+	if eidx < 0 {
+		return false
+	}
+	var checks []ssa.Instruction
+	ssax.Instrs(fn, func(ins ssa.Instruction) {
+		switch x := ins.(type) {
+		case *ssa.Select:
+			checks = append(checks, x)
+		case ssa.CallInstruction:
+			if m := ssax.InvokeMethod(x); m != nil && m.Name() == "Err" && m.Pkg() != nil && m.Pkg().Path() == "context" {
+				checks = append(checks, ins)
+			}
+		}
+	})
+	if len(checks) == 0 {
+		return true // the check is made by a callee: judged there
+	}
+	for _, r := range ssax.Returns(fn) {
+		e := resolveSpilled(r.Results[eidx], r)
+		if !ssax.IsNilConst(e) {
+			if ph, ok := e.(*ssa.Phi); ok {
+				hasNil := false
+				for _, ed := range ph.Edges {
+					if ssax.IsNilConst(ed) {
+						hasNil = true
+					}
+				}
+				if !hasNil {
+					continue
+				}
+			} else {
+				continue
+			}
+		}
+		dominated := false
+		for _, ck := range checks {
+			if ssax.Dominates(ck, r) {
+				dominated = true
+			}
+		}
+		if !dominated {
+			return false
+		}
+	}
+	return true
 }
